@@ -740,6 +740,27 @@ def ep_image_models(h):
         yield ('GriddedPSFModel.eval', lambda: g.evaluate(xx, yy, 3.0, 4.5, 4.5))
         yield ('GriddedPSFModel.call', lambda: g(xx + 10.0, yy + 10.0))
         yield ('GriddedPSFModel.copy-eval', lambda: g.copy().evaluate(xx, yy, 1.0, 15.0, 2.0))
+    # forced photometry: models whose position parameters are fixed, handed to the consumers that
+    # work on a copy of the model and set x_0 / y_0 / flux per source
+    from astropy.table import Table
+
+    from photutils.datasets import make_model_image
+    from photutils.psf import PSFPhotometry
+    rows = h.add('params_table', Table({'x_0': [4.3, 9.1], 'y_0': [5.2, 8.4], 'flux': [10.0, 20.0]}))
+    for label, build in (('ImagePSF', lambda: ImagePSF(arr, flux=1.0, x_0=0.0, y_0=0.0)),
+                         ('GriddedPSFModel', lambda: GriddedPSFModel(nd))):
+        try:
+            mf = build()
+        except Exception:  # noqa: BLE001 - construction failures are reported by the entries above
+            continue
+        mf.x_0.fixed = True
+        mf.y_0.fixed = True
+        h.add(label + '_fixed_xy', mf)
+        yield (f'make_model_image({label} fixed-xy)',
+               lambda mf=mf: make_model_image((15, 15), mf, rows, model_shape=(7, 7)))
+        img = make_model_image((15, 15), mf.copy(), rows, model_shape=(7, 7)) + 0.5
+        yield (f'PSFPhotometry({label} fixed-xy)',
+               lambda mf=mf, img=img: PSFPhotometry(mf, (5, 5))(img, init_params=rows))
 
 
 def ep_extract_stars(h):
